@@ -140,6 +140,17 @@ class StateDom(object):
             k = self._text(e, frame)
             if k is not None and self._alias.get(k, k) in env:
                 return env[self._alias.get(k, k)]
+            # the complementary spelling of a tracked comparison
+            # (`a not in b` when `a in b` is an input, `!=` / `==`, ...)
+            if k is not None and len(e.ops) == 1 and \
+                    type(e.ops[0]) in _COMPLEMENT:
+                alt = ast.Compare(left=e.left,
+                                  ops=[_COMPLEMENT[type(e.ops[0])]()],
+                                  comparators=e.comparators)
+                ak = ' '.join(ast.unparse(alt).split())
+                ak = self._alias.get(ak, ak)
+                if ak in env and isinstance(env[ak], bool):
+                    return not env[ak]
         if self._textkeys and isinstance(e, ast.Attribute) and \
                 dotted(e) is None:
             k = self._text(e, frame)
@@ -652,6 +663,8 @@ class StateDom(object):
 
 
 _FALLTHROUGH = object()
+_COMPLEMENT = {ast.In: ast.NotIn, ast.NotIn: ast.In, ast.Eq: ast.NotEq,
+               ast.NotEq: ast.Eq, ast.Is: ast.IsNot, ast.IsNot: ast.Is}
 
 
 def _num(v):
